@@ -23,6 +23,8 @@ EXTENDS Naturals, Sequences, FiniteSets, TLC
 F(p, m, d) == <<p, m, ToString(d)>>
 
 Key(f) == IF f.ren # "" THEN f.ren ELSE f.n
+\* (a forwarded serde(rename) on an enum variant renames the variant's tag)
+VKey(vr) == IF "ren" \in DOMAIN vr /\ vr.ren # "" THEN vr.ren ELSE vr.n
 
 RECURSIVE ExpData(_, _, _), ExpField(_, _, _)
 ExpField(t, v, mks) ==
@@ -39,10 +41,10 @@ ExpData(T, V, mks) ==
                         ELSE <<"a", ExpFields(T.fields, V, mks)>>
     [] T.k = "enum"  ->
          LET vr == T.variants[V.var] IN
-         CASE vr.k = "unit"  -> <<"s", vr.n>>
-           [] vr.k = "tuple" -> <<"o", << <<vr.n, IF Len(vr.fields) = 1 THEN ExpField(vr.fields[1].t, V.vals[1], mks)
+         CASE vr.k = "unit"  -> <<"s", VKey(vr)>>
+           [] vr.k = "tuple" -> <<"o", << <<VKey(vr), IF Len(vr.fields) = 1 THEN ExpField(vr.fields[1].t, V.vals[1], mks)
                                                    ELSE <<"a", ExpFields(vr.fields, V.vals, mks)>> >> >> >>
-           [] vr.k = "named" -> <<"o", << <<vr.n, <<"o", [i \in 1..Len(vr.fields) |-> <<Key(vr.fields[i]), ExpField(vr.fields[i].t, V.vals[i], mks)>>]>> >> >> >>
+           [] vr.k = "named" -> <<"o", << <<VKey(vr), <<"o", [i \in 1..Len(vr.fields) |-> <<Key(vr.fields[i]), ExpField(vr.fields[i].t, V.vals[i], mks)>>]>> >> >> >>
 
 \* equality of tagged trees; object members are unordered
 RECURSIVE JEq(_, _)
